@@ -634,7 +634,8 @@ class SimulationAlgorithm(BaseSimulationAlgorithm):
             3: 0.001,  # 0.001 years ~ 0.365 days (~1 day) - User will never want precision above 1 day.
         }
 
-        rounding_precision = None
+        # finest supported precision when the requested spacing is below it (including 0)
+        rounding_precision = max(rounding_options)
         for precision, val in sorted(rounding_options.items()):
             if val <= min_spacing_between_visits:
                 rounding_precision = precision
